@@ -69,7 +69,8 @@ PARTIAL = {"Imports.resolve_sound": "soundness is a theorem (Imports.resolve_sou
                                     "it - a top-level class/function the definer does not list itself; at most one re-exporter per object; "
                                     "new names not of the form `name i`; no import in class bodies) plus pkgFromOk (the implicit submodule "
                                     "lookup of `from <package> import n` is an import edge of lower rank, or `n` is bound in the package by "
-                                    "nothing that could be a module) and modNamesOk. The kernel-checked search (reexport_sound_bounded) and the "
+                                    "nothing that could be a module), modNamesOk and aboveOk (every package above an import target, other than the importer, "
+                                    "has a rank below the importer's: since /repo 0ba6723 getProcessedModule analyses the packages above a module first). The kernel-checked search (reexport_sound_bounded) and the "
                                     "streams reexport-sound-search / ShapeGen real-vs-CPython stay as the statement-level tie; "
                                     "and (2) EITHER for names whose class steps stay in the classes' own namespaces (PyImp.pyOwn; "
                                     "Imports.resolve_sound_partial) OR - INHERITED members included, no pyOwn - for the decidable "
@@ -84,8 +85,8 @@ PARTIAL = {"Imports.resolve_sound": "soundness is a theorem (Imports.resolve_sou
                                     "the two correspondence streams. The clean-run side "
                                     "condition is discharged (Imports.wf_run_clean). Outside WF the direct differential oracle decides. Alias ASSIGNMENTS (`Y = X`, "
                                     "`Y = D.X`: astbuilder._handleAliasing) are NOT part of the abstract syntax of the two Lean models: what they bind is "
-                                    "judged by the direct oracle only (open findings unsound:nested-class:enclosing-class-scope, "
-                                    "unsound:alias-through-class:provisional-mro). The completeness clause is proved for ONE import step "
+                                    "judged by the direct oracle only (findings unsound:nested-class:enclosing-class-scope, "
+                                    "unsound:alias-through-class:provisional-mro, both fixed). The completeness clause is proved for ONE import step "
                                     "(resolve_from_definer, resolve_via_module_alias); through longer alias chains it is false on the current tree (open "
                                     "findings incomplete:module-alias:reimport-chain, incomplete:direct-import:moved-twice).",
            "Imports.resolve_sound_unbound": "without 'Python binds the name' the implication is false (star import of a package's "
